@@ -98,7 +98,13 @@ func killChild(args []string) int {
 	}
 	st := store.New(kvs)
 	ctx := context.Background()
-	_, _ = jf.WriteString("R\n")
+	// a journal line that cannot be written (disk full, ...) ends the child: the database must never get ahead of the journal
+	jw := func(line string) {
+		if _, err := jf.WriteString(line); err != nil {
+			os.Exit(4)
+		}
+	}
+	jw("R\n")
 	// blocks are built ahead by another goroutine so that this one spends its time inside store calls
 	type prepared struct {
 		op  Op
@@ -129,16 +135,16 @@ func killChild(args []string) int {
 			fmt.Fprintf(jf, "X materialise %v\n", p.err)
 			return 3
 		}
-		_, _ = jf.WriteString("B " + strconv.Itoa(i) + "\n") // named before it is done
+		jw("B " + strconv.Itoa(i) + "\n") // named before it is done
 		if err := doWrite(ctx, st, p.op, p.mt); err != nil {
 			if isEnvErr(err) {
 				fmt.Fprintf(jf, "X env %d %s\n", i, oneLine(err))
 				return 3
 			}
 			// refused: said so, and carried on (the parent decides whether this input may be refused)
-			fmt.Fprintf(jf, "F %d %s\n", i, oneLine(err))
+			jw(fmt.Sprintf("F %d %s\n", i, oneLine(err)))
 		} else {
-			_, _ = jf.WriteString("E " + strconv.Itoa(i) + "\n")
+			jw("E " + strconv.Itoa(i) + "\n")
 		}
 		i++
 	}
@@ -235,6 +241,11 @@ func killRound(r *vk.Run, kd *killDir, round int, early bool, delay time.Duratio
 	time.Sleep(delay)
 	_ = cmd.Process.Signal(syscall.SIGKILL)
 	_ = cmd.Wait()
+	if ps := cmd.ProcessState; ps != nil && ps.Exited() && ps.ExitCode() == 4 {
+		r.Inconclusive(fmt.Sprintf("kill dir %d round %d: the child could not write its journal", kd.id, round))
+		kd.dead = true
+		return
+	}
 	r.Count("kills", 1)
 	js := readJournal(journal)
 	witness := func(extra map[string]any) map[string]any {
